@@ -63,8 +63,8 @@ def run(tier):
             for kind, bs in breaks(P, src, rng, per):
                 broken.append((family, kind, bs))
     tasks = []
-    for family, kind, bs in broken:
-        for ver in progs.VERS[family][:2]:
+    for j, (family, kind, bs) in enumerate(broken):
+        for ver in progs.VERS[family][:2] + (["nil"] if family == "7" and j % 3 == 0 else []):
             tasks.append({"op": "analyze", "src": bs.decode("latin-1"), "ver": ver, "_k": kind})
     res = wp.run([{k: v for k, v in t.items() if k != "_k"} for t in tasks])
     for t, r in zip(tasks, res):
@@ -86,15 +86,20 @@ def run(tier):
     srcs = list(dict.fromkeys(srcs))
     tasks = []
     for i, s in enumerate(srcs):
-        ver = ["7.4", "5.6", "7.2", "5.3"][i % 4]
+        ver = ["7.4", "5.6", "7.2", "5.3", "nil"][i % 5]
         tasks.append({"op": "analyze", "src": s.decode("latin-1"), "ver": ver})
         tasks.append({"op": "analyze", "src": s.decode("latin-1"), "ver": ver, "nocb": True})
+        tasks.append({"op": "analyze", "src": s.decode("latin-1"), "ver": ver, "recb": True})     # a callback that parses something itself
     res = wp.run(tasks)
-    for k in range(0, len(tasks), 2):
-        t, r, rn = tasks[k], res[k], res[k + 1]
-        check.count(2)
-        if any(x.get("panic") or x.get("hang") or x.get("crash") for x in (r, rn)):
+    for k in range(0, len(tasks), 3):
+        t, r, rn, rr = tasks[k], res[k], res[k + 1], res[k + 2]
+        check.count(3)
+        if any(x.get("panic") or x.get("hang") or x.get("crash") for x in (r, rn, rr)):
             continue
+        if r.get("root") != rr.get("root") or r.get("fp") != rr.get("fp") or r.get("nerr") != rr.get("nerr"):
+            check.violation({"class": "tree-depends-on-what-the-callback-does", "family": t["ver"][0]},
+                            {"src": t["src"], "ver": t["ver"], "plain_callback": [r.get("root"), r.get("fp"), r.get("nerr")],
+                             "callback_that_parses": [rr.get("root"), rr.get("fp"), rr.get("nerr")]})
         for f in r.get("fails") or []:
             if f["c"].startswith("C06."):
                 check.violation({"class": f["c"], "family": t["ver"][0], "msg": (f.get("msg") or "")[:40]},
